@@ -9,3 +9,46 @@ Local Open Scope N_scope.
    state_same: the observable state of the objects involved is what it was *)
 Definition check_fault (res_ok : bool) (after : list N) (state_same : bool) : bool :=
   negb res_ok && forallb (N.eqb 0) after && state_same.
+
+(* ---- the order of dependency calls: the kinds of calls a fault-free run of the
+   implementation issues, with repeated reads counted once, are those of the
+   program model run against an environment in which every call succeeds ---- *)
+From Coq.Strings Require Import Byte.
+From GoUefi Require Import Base.Bytes Base.Outcome Base.Prog Model.Util Model.VarIO Model.Faults.
+
+Definition kind_of (c : call) : N :=
+  match c with
+  | COpenFile _ _ _ | COpen _ => 0
+  | CStat => 1
+  | CRead _ => 2
+  | CWrite _ => 3
+  | CClose => 4
+  | CSign _ => 5
+  | CReadAt => 6
+  end.
+Fixpoint collapse (l : list N) : list N :=
+  match l with
+  | a :: ((b :: _) as r) => if a =? b then collapse r else a :: collapse r
+  | _ => l
+  end.
+Definition env_ok : env :=
+  fun _ c => match c with
+             | CStat => ROk 8 []
+             | CRead n => ROk n (zeros (N.to_nat n))
+             | CWrite b => ROk (N.of_nat (length b)) []
+             | _ => ROk 0 []
+             end.
+Definition model_kinds {R} (p : prog R) : list N := collapse (map kind_of (snd (run env_ok p 0))).
+Fixpoint nlist_eqb (a b : list N) : bool :=
+  match a, b with
+  | [], [] => true
+  | x :: a', y :: b' => (x =? y) && nlist_eqb a' b'
+  | _, _ => false
+  end.
+Definition zero_guid : guid := mkGuid 0 0 0 (repeat x00 8).
+(* op: 0 = write a variable, 1 = read a variable, 2 = signed update (the signer first, then the write) *)
+Definition check_call_order (op : N) (kinds : list N) : bool :=
+  nlist_eqb (collapse kinds)
+    (if op =? 0 then model_kinds (write_var [] [] zero_guid 7 [x00])
+     else if op =? 1 then model_kinds (read_var_prog [] 0)
+     else model_kinds (signed_update_prog [] (fun s => s) [] [] zero_guid 7)).
